@@ -509,7 +509,9 @@ func (s *slice) walk(h []Op) (m *model, red []Op, revFam []string, hasRevert, ha
 			// statement does not promise that a query is free of side effects)
 			var kept []Op
 			for _, d := range red[marks[o.V]:] {
-				if d.isQuery() {
+				// (in the binding universes the full observation ends in GetFT, which may create the
+				// bound contract's account object - journaled, hence reverted: not a pure query there)
+				if d.isQuery() && !(d.K == kReadAll && s.u.bind != nil) {
 					kept = append(kept, d)
 				} else {
 					fam[familyOf(d)] = true
